@@ -1,8 +1,11 @@
 // target: src/store.rs
-// labels: policy.filter.* policy.text.*
+// labels: policy.filter.* policy.text.* policy.matches.*
 // tier: quick
 // bound: both filter kinds, every byte string of length <= 4 over the alphabet {'a', ':', ' ', 'e', 0x00, 0xC3, 0xA9, 0xFF} (valid UTF-8 incl.
-// a two-byte character, colons, and invalid UTF-8): Display then FromStr returns the same filter; parsing garbage never panics.
+// a two-byte character, colons, and invalid UTF-8), plus every arrangement of length <= 3 of 17 bytes that build truncated, overlong,
+// surrogate and replacement-character sequences (bare and between ASCII letters): Display then FromStr returns the same filter; parsing
+// garbage never panics. Policies: every policy of one filter (and a selection of two) over byte strings of length <= 2 over six bytes decides every
+// key of length <= 3 over the same bytes by its bytes (prefix / equality), nothing-except and everything-except being complements.
 #[cfg(test)]
 mod verif_rp_c15_filter_text {
     use super::*;
@@ -18,6 +21,16 @@ mod verif_rp_c15_filter_text {
             strings.extend(next.iter().cloned());
             layer = next;
         }
+        // second family: truncated and malformed multi-byte sequences (lead bytes of 2-, 3- and 4-byte characters, continuation bytes, the
+        // bytes of U+FFFD itself, overlong and surrogate encodings) in every arrangement of length <= 3, also embedded in ASCII
+        let bad = [0x80u8, 0xBF, 0xC0, 0xC3, 0xE0, 0xE2, 0x82, 0xAC, 0xED, 0xA0, 0xEF, 0xBD, 0xF0, 0x9F, 0x98, 0xF4, 0x90];
+        let mut layer2: Vec<Vec<u8>> = vec![vec![]];
+        for _ in 0..3 {
+            let mut next = vec![];
+            for s in &layer2 { for c in bad { let mut t = s.clone(); t.push(c); next.push(t); } }
+            for t in &next { strings.push(t.clone()); let mut u = vec![b'a']; u.extend(t); u.push(b'z'); strings.push(u); }
+            layer2 = next;
+        }
         let mut n = 0;
         for s in &strings { for exact in [false, true] {
             let f = if exact { FilterKind::Exact(Bytes::from(s.clone())) } else { FilterKind::Prefix(Bytes::from(s.clone())) };
@@ -32,5 +45,39 @@ mod verif_rp_c15_filter_text {
         // hostile text never panics
         for s in &strings { if let Ok(t) = std::str::from_utf8(s) { let _ = t.parse::<FilterKind>(); let _ = format!("prefix:{t}").parse::<FilterKind>(); let _ = format!("exact:hex:{t}").parse::<FilterKind>(); } }
         println!("c15_filter_text: {n} filters round-tripped");
+    }
+
+    /// the download decision is a function of the key BYTES: every policy of up to two filters over byte strings of length <= 2 over
+    /// {'a', 'b', 0xC3, 0xA9, 0xEF, 0xFF} (valid and invalid UTF-8), every key of length <= 3 over the same alphabet
+    #[test]
+    fn policies_decide_on_the_bytes_of_the_key() {
+        let alpha = [b'a', b'b', 0xC3u8, 0xA9, 0xEF, 0xFF];
+        let mut all: Vec<Vec<u8>> = vec![vec![]];
+        let mut layer: Vec<Vec<u8>> = vec![vec![]];
+        for _ in 0..3 { let mut next = vec![]; for s in &layer { for c in alpha { let mut t = s.clone(); t.push(c); next.push(t); } } all.extend(next.iter().cloned()); layer = next; }
+        let short: Vec<&Vec<u8>> = all.iter().filter(|s| s.len() <= 2).collect();
+        let ns = crate::NamespaceId::from(&[1u8; 32]);
+        let author = crate::AuthorId::from(&[2u8; 32]);
+        let rule = |f: &FilterKind, k: &[u8]| match f { FilterKind::Prefix(p) => k.len() >= p.len() && &k[..p.len()] == &p[..], FilterKind::Exact(e) => &e[..] == k };
+        let mut filters: Vec<FilterKind> = vec![];
+        for s in &short { filters.push(FilterKind::Prefix(Bytes::from((*s).clone()))); filters.push(FilterKind::Exact(Bytes::from((*s).clone()))); }
+        let mut n = 0usize;
+        for key in &all {
+            let entry = crate::sync::Entry::new(crate::sync::RecordIdentifier::new(ns, author, key), crate::sync::Record::new(iroh_blobs::Hash::new(b"x"), 1, 7));
+            for (i, f) in filters.iter().enumerate() {
+                // one filter, and two filters (the second one runs over a sparse selection)
+                let want1 = rule(f, key);
+                assert_eq!(DownloadPolicy::NothingExcept(vec![f.clone()]).matches(&entry), want1, "WITNESS nothing-except [{f:?}] on key {key:?}");
+                assert_eq!(DownloadPolicy::EverythingExcept(vec![f.clone()]).matches(&entry), !want1, "WITNESS everything-except [{f:?}] on key {key:?}");
+                let g = &filters[(i * 7 + 3) % filters.len()];
+                let want2 = want1 || rule(g, key);
+                assert_eq!(DownloadPolicy::NothingExcept(vec![f.clone(), g.clone()]).matches(&entry), want2, "WITNESS nothing-except [{f:?}, {g:?}] on key {key:?}");
+                assert_eq!(DownloadPolicy::EverythingExcept(vec![f.clone(), g.clone()]).matches(&entry), !want2, "WITNESS everything-except [{f:?}, {g:?}] on key {key:?}");
+                n += 4;
+            }
+        }
+        assert!(!DownloadPolicy::NothingExcept(vec![]).matches(&crate::sync::Entry::new(crate::sync::RecordIdentifier::new(ns, author, b"k"), crate::sync::Record::new(iroh_blobs::Hash::new(b"x"), 1, 7))), "WITNESS nothing-except [] downloads");
+        assert!(DownloadPolicy::EverythingExcept(vec![]).matches(&crate::sync::Entry::new(crate::sync::RecordIdentifier::new(ns, author, b"k"), crate::sync::Record::new(iroh_blobs::Hash::new(b"x"), 1, 7))), "WITNESS everything-except [] skips");
+        println!("c15_filter_text: {n} policy decisions");
     }
 }
